@@ -65,7 +65,7 @@ fn gen(t: &mut Tape) -> Scenario {
     if t.chance(1, 2) {
         let k = t.int(1, 3);
         for _ in 0..k {
-            sc.server_shutdowns.push((t.pick(n + 1), t.pick(4)));
+            sc.server_shutdowns.push((t.pick(n + 1), if t.chance(1, 4) { *t.choose(&[1000usize, 1 << 30, 1 << 60, (1 << 60) + 1, usize::MAX / 2, usize::MAX]) } else { t.pick(4) }));
         }
     }
     sc.client_shutdown = t.chance(1, 5);
